@@ -342,7 +342,7 @@ def join_generate(variants, styles=None):
             for _ in range(n):
                 out.append(gen_join_scenario(rng, variant, tier, style=rng.choice(styles) if styles else None))
             if True:
-                for _ in range(4 if tier == "quick" else 40):
+                for _ in range(4 if tier == "quick" else 12):
                     out.append(gen_join_scenario(rng, variant, tier, style="bigjoin"))
         return out
     return generate
